@@ -9,6 +9,7 @@ import SkgVerif.Model.Fit
 import SkgVerif.Gen.Tables
 import SkgVerif.Gen.DirectionExec
 import SkgVerif.Model.CacheMachine
+import SkgVerif.Model.SpaceTime
 import SkgVerif.Gen.ModelsExec
 import SkgVerif.Gen.STModelsExec
 /-!
@@ -297,6 +298,33 @@ def handleC06 : List String → Option String
           | _ => none
       let out ← go VState.init toks []
       some s!"ok|{" ".intercalate out}"
+  | _ => none
+
+
+def chunk {α} (n : Nat) (l : List α) : List (List α) :=
+  if n = 0 then [] else (List.range (l.length / n)).map fun i => (l.drop (i * n)).take n
+
+def handleC14 : List String → Option String
+  | ["table", est, nT, vals, xe, xd, te, td] => do
+      let nT ← nT.trimAscii.toString.toNat?
+      let vals ← parseRats vals
+      let xe ← parseRats xe
+      let xd ← parseRats xd
+      let te ← parseRats te
+      let td ← parseRats td
+      let f ← estimatorByName est.trimAscii.toString
+      let v := chunk nT vals
+      let D := stDiff v
+      let xg := groupsOC xe xd
+      let tg := groupsOC te td
+      let tab := stExperimental f xe.length te.length xg tg D
+      some s!"ok|{fmtList fmtOptRat tab}|{fmtList toString xg}|{fmtList toString tg}"
+  | ["samples", xb, tb, z] => do
+      let xb ← parseRats xb
+      let tb ← parseRats tb
+      let z ← parseOptRats z
+      let s := stSamples xb tb z
+      some s!"ok|{fmtList fmtRat (s.map (·.1))}|{fmtList fmtRat (s.map (·.2.1))}|{fmtList fmtRat (s.map (·.2.2))}"
   | _ => none
 
 end Skg
